@@ -126,7 +126,7 @@ func genC16(concurrent bool) func(rng *Rng, sc *Scenario) {
 		withUses := (sc.Run/128)%2 == 1
 		op := RegOp{Op: "resource", Ctrl: mask, WithUses: withUses, Path: "/"}
 		if rng.Chance(1, 3) {
-			op.Path = rng.Pick([]string{"/api/", "/api/", "/API/v2/", "/Shop/"})
+			op.Path = rng.Pick([]string{"/api/", "/api/", "/API/v2/", "/Shop/", "/shops/{shop}/"}) // the last one: a base path with a variable
 		}
 		for i, n := 0, rng.Intn(3); i < n; i++ {
 			op.MW = append(op.MW, fmt.Sprintf("m%d", i))
@@ -185,14 +185,14 @@ func genC16(concurrent bool) func(rng *Rng, sc *Scenario) {
 			}
 		}
 		sc.OrderSeed = rng.U64() | 1
-		res := base + strings.ToLower(ctrlTag(&op))
+		res := strings.ReplaceAll(base, "{shop}", "7") + strings.ToLower(ctrlTag(&op))
 		// probes: all methods x all relative paths, in seeded order, spread over the clients
 		var probes []Req
 		for _, m := range c16Methods {
 			for _, rel := range c16Rels {
 				probes = append(probes, Req{Method: m, Path: res + rel})
 				if op.Again != "" && rng.Chance(1, 2) {
-					probes = append(probes, Req{Method: m, Path: strings.TrimSuffix(base, op.Path) + op.Again + strings.ToLower(ctrlTag(&op)) + rel})
+					probes = append(probes, Req{Method: m, Path: strings.ReplaceAll(strings.TrimSuffix(base, op.Path), "{shop}", "7") + op.Again + strings.ToLower(ctrlTag(&op)) + rel})
 				}
 			}
 		}
@@ -322,14 +322,14 @@ func c16Judge(sc *Scenario) (viol []Violation, res *RunResult, nontrivial bool) 
 	for _, rec := range res.All() {
 		rp := ""
 		for _, x := range resPaths {
-			if strings.HasPrefix(rec.Path, x) {
+			if strings.HasPrefix(rec.Path, strings.ReplaceAll(x, "{shop}", "7")) {
 				rp = x
 			}
 		}
 		if rp == "" {
 			continue
 		}
-		rel := strings.TrimPrefix(rec.Path, rp)
+		rel := strings.TrimPrefix(rec.Path, strings.ReplaceAll(rp, "{shop}", "7"))
 		wantAct, wantID := "", ""
 		if rel == "" || rel[0] == '/' {
 			wantAct, wantID = c16Expect(op.Ctrl, rec.Method, rel)
@@ -392,17 +392,7 @@ func checkC16(sc *Scenario) *CheckOut {
 	viol, res, nt := c16Judge(sc)
 	out.Res, out.Nontrivial = res, nt
 	out.Requests = len(res.All())
-	if len(viol) > 0 && sc.OrderSeed != 0 {
-		// does the failure depend on the order in which the actions were registered?
-		c := sc.Clone()
-		c.OrderSeed = 0
-		if v2, _, _ := c16Judge(c); len(v2) == 0 {
-			viol[0].Class = "order-dependent"
-			viol[0].Detail = "holds when the actions are registered in sorted order, fails in the seeded order: " + viol[0].Detail
-		}
-	}
 	out.Viol = viol
-	out.Faults["registration-order-permuted"] = 1
 	return out
 }
 
